@@ -142,47 +142,47 @@ var c17StrEntry = ref.Opts{Kinds: ref.KNil | ref.KString | ref.KFloat, MaxStr: 1
 var c17ConcEntry = ref.Opts{Kinds: ref.KNil | ref.KFloat | ref.KBool, ConcFloats: true}
 var c17ConcBound = ref.Opts{Kinds: ref.KFloat, ConcFloats: true}
 
-//verif:harness props=C17,C08 tier=quick split=16 bounds="index of 1 entry (nil/float64 (0 or |x|>=2^-1000)/string<=1/bool), float64 range bounds or open ends with symbolic inclusion flags (domain: >=1 non-nil bound or nil-only), both directions; reference store"
+//verif:harness props=C17,C08 tier=quick bounds="index of 1 entry (nil/float64 (0 or |x|>=2^-1000)/string<=1/bool), float64 range bounds or open ends with symbolic inclusion flags (domain: >=1 non-nil bound or nil-only), both directions; reference store"
 func H_C17_scan1_num() {
 	checkScanOpt(1, c17Entry, c17NumBound, false, false)
 }
 
-//verif:harness props=C17 tier=quick split=16 bounds="index of 1 entry (nil/string<=1 symbolic byte/float from {-1.5,0,2.5}), string<=1 range bounds or open ends, symbolic inclusion flags, both directions"
+//verif:harness props=C17 tier=quick bounds="index of 1 entry (nil/string<=1 symbolic byte/float from {-1.5,0,2.5}), string<=1 range bounds or open ends, symbolic inclusion flags, both directions"
 func H_C17_scan1_str() {
 	checkScanOpt(1, c17StrEntry, c17StrBound, false, false)
 }
 
-//verif:harness props=C17,C08 tier=quick split=16 bounds="index of 3 entries (nil/bool/float from {-1.5,0,2.5}; duplicates, both id orders), range bounds from the same float set or open, symbolic inclusion flags, both directions, consumer stop after k in 0..4"
+//verif:harness props=C17,C08 tier=quick bounds="index of 3 entries (nil/bool/float from {-1.5,0,2.5}; duplicates, both id orders), range bounds from the same float set or open, symbolic inclusion flags, both directions, consumer stop after k in 0..4"
 func H_C17_scan3_conc() {
 	checkScanOpt(3, c17ConcEntry, c17ConcBound, false, true)
 }
 
-//verif:harness props=C17,C08 tier=thorough split=48 bounds="index of 2 entries (nil/float64 (0 or |x|>=2^-1000); duplicates and both id orders arise), float64 range bounds or open ends, symbolic inclusion flags, both directions"
+//verif:harness props=C17,C08 tier=thorough bounds="index of 2 entries (nil/float64 (0 or |x|>=2^-1000); duplicates and both id orders arise), float64 range bounds or open ends, symbolic inclusion flags, both directions"
 func H_C17_scan2_num() {
 	checkScanOpt(2, c17NumEntry, c17NumBound, false, false)
 }
 
-//verif:harness props=C17 tier=thorough split=64 bounds="index of 2 entries (nil/float64/string<=1/bool), range bounds nil or float64/string<=1, flags, both directions, consumer stop after k in 0..3"
+//verif:harness props=C17 tier=thorough bounds="index of 2 entries (nil/float64/string<=1/bool), range bounds nil or float64/string<=1, flags, both directions, consumer stop after k in 0..3"
 func H_C17_scan2() {
 	checkScanOpt(2, c17Entry, c17ScanBound, false, true)
 }
 
-//verif:harness props=C17 tier=quick split=16 bounds="full iteration of an index of 2 entries (nil/float64/string<=1/bool), both directions, consumer stop after k in 0..3"
+//verif:harness props=C17 tier=quick bounds="full iteration of an index of 2 entries (nil/float64/string<=1/bool), both directions, consumer stop after k in 0..3"
 func H_C17_iterate2() {
 	checkScanOpt(2, c17Entry, c17ScanBound, true, true)
 }
 
-//verif:harness props=C17 tier=thorough split=64 bounds="full iteration of an index of 3 entries (nil/float64/string<=1/bool), both directions, consumer stop after k"
+//verif:harness props=C17 tier=thorough bounds="full iteration of an index of 3 entries (nil/float64/string<=1/bool), both directions, consumer stop after k"
 func H_C17_iterate3() {
 	checkScanOpt(3, c17Entry, c17ScanBound, true, true)
 }
 
-//verif:harness props=C17 tier=thorough split=64 bounds="index of 3 entries (nil/float64), float64 range bounds, flags, direction"
+//verif:harness props=C17 tier=thorough bounds="index of 3 entries (nil/float64), float64 range bounds, flags, direction"
 func H_C17_scan3() {
 	checkScanOpt(3, c17NumEntry, c17NumBound, false, false)
 }
 
-//verif:harness props=C17,C14,C06 tier=quick split=8 bounds="full and ranged scans of index f in the presence of a sibling index fz (name extends f) and document records of the same collection: only f's entries are yielded"
+//verif:harness props=C17,C14,C06 tier=quick bounds="full and ranged scans of index f in the presence of a sibling index fz (name extends f) and document records of the same collection: only f's entries are yielded"
 func H_C17_scan_sibling() {
 	idx, es := scanSetup(1, ref.Opts{Kinds: ref.KNil | ref.KFloat | ref.KString, MaxStr: 1, FloatNormal: true}, true)
 	reverse := nd.Bool("reverse")
